@@ -196,7 +196,10 @@ def rule_round_trip(ctx, repo):
         except SyntaxError:
             continue
         want = requests(old)
-        if not want or not any(k_[0] == name for k_ in TABLE):
+        kinds = {w_ for k_, w_ in TABLE.items() if k_[0] == name}
+        out_side = bool(kinds & {'b2lx', 'amount-out', 'hex-out'})
+        in_side = any(w_ in ('lx', 'amount-in') or w_.startswith('hex-in:C') for w_ in kinds)
+        if not want or not (out_side or in_side):
             continue  # methods without an amount / hash / transaction crossing are not what the property talks about
         got = requests(fi.node)
         key = 'sent:%s' % name
@@ -216,7 +219,9 @@ def rule_round_trip(ctx, repo):
         new_fall = [e for e in new_exits if e[0] == 'fallthrough']
         new_bare = [e for e in new_exits if e[0] == 'return' and (e[1].value is None or (isinstance(e[1].value, ast.Constant) and e[1].value.value is None))]
         key = 'returns:%s' % name
-        if (new_fall and not old_fall) or (len(new_bare) > len(old_bare)):
+        if not in_side:
+            pass  # nothing of the reply is converted: what the method returns is outside the property
+        elif (new_fall and not old_fall) or (len(new_bare) > len(old_bare)):
             r.violated(key, fi.site, 'Proxy.%s can now finish without a return value (the confirmed method always returns the converted reply): the caller receives None' % name, sure=True)
         else:
             def own_call(e):
